@@ -365,15 +365,10 @@ pub fn run(opts: &Opts) -> i32 {
             rep.sample(json!({"space": name, "history": t}));
         }
         for f in found {
-            let r1 = replay_trace(&sys, &f.trace, false);
-            let r2 = replay_trace(&sys, &f.trace, false);
-            if r1 != r2 || r1.is_ok() {
-                eprintln!("MACHINERY ERROR: C07 violation does not replay deterministically ({:?} vs {:?})", r1, r2);
-                std::process::exit(2);
-            }
+            let note = crate::util::confirm_or_exit("C07", &f.what, || replay_trace(&sys, &f.trace, false).err());
             rep.violation(Violation::new(
                 format!("{}:{name}", f.what.split(':').next().unwrap_or("")),
-                f.what.clone(),
+                format!("{}{note}", f.what),
                 json!({"kind": "c07-trace", "space": name, "storage": sys.kind, "populated": sys.populated, "two_tasks": sys.two_tasks, "trace": f.trace, "observed": f.what}),
             ));
         }
